@@ -58,6 +58,15 @@ package chainntnfs
 //@   site mapupdate ntfnSet: assert arg(key) == ntfn && details.BlockHeight + ntfn.NumConfirmations - 1 > n.currentHeight && !old(ntfn.dispatched)
 //@   site mapupdate confsByInitialHeight: assert arg(key) == details.BlockHeight
 //@   site mapupdate txSet: assert arg(key) == ntfn.ConfRequest && details.BlockHeight + n.reorgSafetyLimit > n.currentHeight
+//@   site lookup confsByInitialHeight: assert arg(key) == details.BlockHeight
+//@   site lookup ntfnsByConfirmHeight: assert arg(key) == details.BlockHeight + ntfn.NumConfirmations - 1
+//@   // whenever details were processed for a registration not yet served and the block can still be reorged out, the
+//@   // request is (now) watched under its inclusion height - on every successful return, also the immediate hand-out
+//@   ensures result == nil && details != nil && !old(ntfn.dispatched) && details.BlockHeight + n.reorgSafetyLimit > n.currentHeight ==>
+//@           has(n.confsByInitialHeight, details.BlockHeight) && has(n.confsByInitialHeight[details.BlockHeight], ntfn.ConfRequest)
+//@   ensures result == nil && details != nil && !old(ntfn.dispatched) && details.BlockHeight + ntfn.NumConfirmations - 1 > n.currentHeight ==>
+//@           has(n.ntfnsByConfirmHeight, details.BlockHeight + ntfn.NumConfirmations - 1) &&
+//@           has(n.ntfnsByConfirmHeight[details.BlockHeight + ntfn.NumConfirmations - 1], ntfn)
 //@   site call notifyNumConfsLeft nth 0: assert arg(ntfn) == ntfn && arg(info).NumConfsLeft == 0 && arg(info).BlockHeight == details.BlockHeight
 //@   site call notifyNumConfsLeft nth 1: assert arg(ntfn) == ntfn && arg(info).BlockHeight == details.BlockHeight &&
 //@        arg(info).NumConfsLeft == details.BlockHeight + ntfn.NumConfirmations - 1 - n.currentHeight
@@ -71,6 +80,8 @@ package chainntnfs
 //@   site mapupdate ntfnSet: assert arg(key) == ntfn
 //@   site mapupdate confsByInitialHeight: assert arg(key) == details.BlockHeight
 //@   site mapupdate txSet: assert arg(key) == confRequest
+//@   site lookup confsByInitialHeight: assert arg(key) == details.BlockHeight
+//@   site lookup ntfnsByConfirmHeight: assert arg(key) == wrap(details.BlockHeight + ntfn.NumConfirmations - 1, 32)
 //@
 //@ func (n *TxNotifier) unconfirmedRequests
 //@   props C14
@@ -111,6 +122,12 @@ package chainntnfs
 //@   site send Spend: assert details != nil && !ntfn.dispatched && value == details
 //@   site store SpendNtfn.dispatched: assert details != nil && !old(ntfn.dispatched) && value
 //@   site mapupdate spendsByHeight: assert arg(key) == wrap(details.SpendingHeight, 32)
+//@   ensures result == nil && details != nil && !old(ntfn.dispatched) &&
+//@           wrap(wrap(details.SpendingHeight, 32) + n.reorgSafetyLimit, 32) > n.currentHeight ==>
+//@           has(n.spendsByHeight, wrap(details.SpendingHeight, 32)) && has(n.spendsByHeight[wrap(details.SpendingHeight, 32)], ntfn.SpendRequest)
+//@   ensures result == nil && details != nil && !old(ntfn.dispatched) ==> ntfn.dispatched
+//@   ensures details == nil || old(ntfn.dispatched) ==> result == nil && ntfn.dispatched == old(ntfn.dispatched)
+//@   site lookup spendsByHeight: assert arg(key) == wrap(details.SpendingHeight, 32)
 //@   site mapupdate txSet: assert arg(key) == ntfn.SpendRequest &&
 //@        wrap(wrap(details.SpendingHeight, 32) + n.reorgSafetyLimit, 32) > n.currentHeight
 //@
@@ -126,12 +143,14 @@ package chainntnfs
 //@   site store spendNtfnSet.rescanStatus: assert value == rescanComplete
 //@   site mapupdate spendsByHeight: assert arg(key) == wrap(details.SpendingHeight, 32)
 //@   site mapupdate opSet: assert arg(key) == spendRequest
+//@   site lookup spendsByHeight: assert arg(key) == wrap(details.SpendingHeight, 32)
 //@
 //@ func (n *TxNotifier) updateSpendDetails
 //@   props C14
 //@   loop * havoc
-//@   site call CommitSpendHint nth 0: assert details == nil && arg(1) == n.currentHeight
-//@   site call CommitSpendHint nth 1: assert details != nil && arg(1) == wrap(details.SpendingHeight, 32) && arg(1) <= n.currentHeight
+//@   site call CommitSpendHint nth 0: assert details == nil && arg(1) == n.currentHeight && spendSet.details == nil
+//@   site call CommitSpendHint nth 1: assert details != nil && arg(1) == wrap(details.SpendingHeight, 32) && arg(1) <= n.currentHeight && spendSet.details == nil
+//@   site store spendNtfnSet.rescanStatus: assert value == rescanComplete && spendSet.details == nil
 //@   site store spendNtfnSet.details: assert details == nil && value == entry(details) && entry(details) != nil &&
 //@        wrap(entry(details).SpendingHeight, 32) <= n.currentHeight && ret(HasSpenderWitness)
 //@   site call dispatchSpendDetails: assert arg(details) == entry(details)
@@ -141,8 +160,9 @@ package chainntnfs
 //@   loop 0 invariant details.BlockHeight == old(details.BlockHeight) && n.currentHeight == old(n.currentHeight) &&
 //@        n.reorgSafetyLimit == old(n.reorgSafetyLimit) && details.BlockHash == old(details.BlockHash) &&
 //@        details.TxIndex == old(details.TxIndex) && details.Tx == old(details.Tx)
-//@   site call CommitConfirmHint nth 0: assert details == nil && arg(1) == n.currentHeight
-//@   site call CommitConfirmHint nth 1: assert details != nil && arg(1) == details.BlockHeight && arg(1) <= n.currentHeight
+//@   site call CommitConfirmHint nth 0: assert details == nil && arg(1) == n.currentHeight && confSet.details == nil
+//@   site call CommitConfirmHint nth 1: assert details != nil && arg(1) == details.BlockHeight && arg(1) <= n.currentHeight && confSet.details == nil
+//@   site store confNtfnSet.rescanStatus: assert value == rescanComplete && confSet.details == nil
 //@   site store confNtfnSet.details: assert details == nil && value == entry(details) && entry(details) != nil &&
 //@        entry(details).BlockHeight <= n.currentHeight
 //@   site call dispatchConfDetails: domain 1 <= arg(ntfn).NumConfirmations && arg(ntfn).NumConfirmations <= n.reorgSafetyLimit &&
